@@ -33,6 +33,7 @@ For multiple constraints, use MILP or CP-SAT.
 """
 
 from collections.abc import Sequence
+from math import floor
 
 from solvor.types import Result, Status
 from solvor.utils import check_non_negative, check_sequence_lengths
@@ -65,8 +66,16 @@ def solve_knapsack(
     # Convert to integer capacity for DP (scale if needed)
     int_capacity, scale = _to_int_capacity(capacity, weights)
 
-    # Scale weights
-    int_weights = [max(1, int(w * scale)) if w > 0 else 0 for w in weights]
+    # Scale weights; the DP answer is provably optimal only if scaling lost nothing
+    lossless = _scaled(capacity, scale)[1]
+    int_weights = []
+    for w in weights:
+        if w > 0:
+            int_w, exact = _scaled(w, scale)
+            lossless = lossless and exact and int_w >= 1
+            int_weights.append(max(1, int_w))
+        else:
+            int_weights.append(0)
 
     # DP table: dp[w] = max value achievable with capacity w
     dp = [0.0] * (int_capacity + 1)
@@ -105,7 +114,16 @@ def solve_knapsack(
         # Scaling caused infeasibility, fall back to greedy
         return _greedy_fallback(values, weights, capacity, minimize)
 
-    return Result(selected_tuple, objective, 0, n, Status.OPTIMAL)
+    return Result(selected_tuple, objective, 0, n, Status.OPTIMAL if lossless else Status.FEASIBLE)
+
+
+def _scaled(x: float, scale: float) -> tuple[int, bool]:
+    """x * scale as an integer, and whether nothing but float noise was dropped."""
+    s = x * scale
+    nearest = floor(s + 0.5)
+    if abs(s - nearest) <= 1e-9:
+        return nearest, True
+    return int(s), False
 
 
 def _to_int_capacity(capacity: float, weights: Sequence[float]) -> tuple[int, float]:
@@ -125,7 +143,7 @@ def _to_int_capacity(capacity: float, weights: Sequence[float]) -> tuple[int, fl
         return 0, 1.0
 
     scale = min(max_capacity / capacity, 1000.0)
-    return int(capacity * scale), scale
+    return _scaled(capacity, scale)[0], scale
 
 
 def _greedy_fallback(
